@@ -64,6 +64,11 @@ class C04(Property):
             cases.append(Case("enc " + hexs(d), prop=False, tags=("bundled",)))
         return cases
 
+    def known(self, case, out, findings):
+        if "explained=computed-length-above-parse-limit" in out and any(f["id"] == "F20" for f in findings):
+            return "F20"
+        return None
+
     def is_nontrivial(self, case, impl_out):
         return impl_out.startswith("ok") and impl_out.count("0a") > 40
 
